@@ -11,7 +11,9 @@
         op = (0 a) CheckGasLegacy | (1 e s) CheckGasAmsterdam | (2 r u) ChargeGasLegacy
            | (3 e s u) ChargeGasAmsterdam | (4) Used | (5) Snapshot | (6 (f1..f5)) Set
            | (7) Gas/CumulativeUsed/CumulativeExecution/CumulativeState
-     -> one list per op: (rem ini cu ce cs  result...)   error classes: 0 nil, 1 overflow, 2 reached *)
+     -> one list per op: (rem ini cu ce cs  result...)   error classes: 0 nil, 1 overflow, 2 reached
+   case (2 fork blockLimit (tx ...))     real transactions through core.ApplyMessage: no model
+     observable (settlement inputs are internal); -> ()  — decided by the harness oracle only *)
 From GV Require Import Lib.Sx Gas.GoArith Gas.Budget_gen Gas.Pool_gen Gas.BudgetMachine.
 Local Open Scope Z_scope.
 
@@ -130,6 +132,8 @@ Definition dec_budget (s : sx) : option GasBudget :=
 
 Definition C31_run (c : sx) : sx :=
   match c with
+  (* kind 2: blocks of real transactions, checked by the Go-side oracle only *)
+  | SL [SI 2; _; _; _] => SL []
   | SL [SI k; i; SL ops] =>
       if k =? 0 then
         match dec_budget i, opt_map dec_op ops with
